@@ -18,6 +18,8 @@ import (
 func init() {
 	register("hub", "C01", runHub)
 	register("overflow", "C13", runOverflow)
+	register("hubevents", "C17", func(c *h.Ctx, r *h.Report) { runHubGen(c, r, "events") })
+	register("hubapi", "C18", func(c *h.Ctx, r *h.Report) { runHubGen(c, r, "api") })
 }
 
 func runOverflow(c *h.Ctx, r *h.Report) {
@@ -82,6 +84,15 @@ func genHubCase(rr *h.Rand, o *gen.Oracle, focus string) hubCase {
 		cs.Size = uint64(1 + rr.Intn(5))
 	}
 	p := mkPool(rr, o)
+	if focus == "events" || focus == "api" {
+		cs.Cfg.Subscriptions = true
+		p.sels = append(p.sels, "a b", "x/y?z#w", "é ü", "100%", "a+b", "{weird", "https://example.com/{id}")
+	}
+	if focus == "events" {
+		watch := claimsJSON("subscribe", []string{"*"}, "w")
+		cs.Ops = append(cs.Ops, hubOp{Op: "sub", Label: 1000, Topics: []string{"*"}, Claims: watch},
+			hubOp{Op: "sub", Label: 1001, Topics: []string{"/.well-known/mercure/subscriptions/{topic}/{subscriber}"}, Claims: watch})
+	}
 	nops := 8 + rr.Intn(25)
 	next := 0
 	var live []int
@@ -200,7 +211,7 @@ func genHubCase(rr *h.Rand, o *gen.Oracle, focus string) hubCase {
 			cs.Ops = append(cs.Ops, hubOp{Op: "close"})
 			live = nil
 		default:
-			if cs.Cfg.Subscriptions {
+			if cs.Cfg.Subscriptions && (focus == "api" || rr.Chance(1, 2)) {
 				op := hubOp{Op: h.Pick(rr, []string{"api.list", "api.list", "api.get"}), Claims: claimsJSON("subscribe", []string{"*"}, "")}
 				if rr.Bool() || op.Op == "api.get" {
 					op.Topic = h.Pick(rr, p.sels)
@@ -227,8 +238,88 @@ func genHubCase(rr *h.Rand, o *gen.Oracle, focus string) hubCase {
 	return cs
 }
 
+// runHubGen: the hub family with a generator focused on one concern (same machinery and oracles).
+func runHubGen(c *h.Ctx, r *h.Report, focus string) {
+	switch focus {
+	case "events":
+		r.Rule = "hub histories with subscription tracking always on: a '*'-claims watcher on '*' and a watcher on the documented template /.well-known/mercure/subscriptions/{topic}/{subscriber} connect first; then subscribers with 1-3 selectors drawn from reserved characters / templates / unicode / spaces connect and end in every way (client disconnect, failing write, stalled writer, hub close, restart, refused requests); both transports. Every stream, the index and the metrics are compared with the model after every op; the oracle 'event id is the percent-encoded subscription URL' is evaluated on the implementation alone. Non-trivial = case with a subscriber having >= 2 selectors or an abnormal end; distinct by content."
+	case "api":
+		r.Rule = "hub histories with the subscription API on: connects / disconnects / publishes, then the three endpoints (collection, per-selector collection, item — every listed id is dereferenced) with caller claims in {exact URL, template, '*', unrelated, absent}, If-None-Match, selectors exercising URL escaping; both transports; responses compared with the model; oracles 'listed = connected' on the implementation alone. Non-trivial = case with >= 2 connected subscribers at an API call; distinct by content."
+	}
+	o := gen.NewOracle()
+	g := installCountingUUID()
+	if c.Replay != "" {
+		var rp struct {
+			Case hubCase `json:"case"`
+		}
+		readReplay(c.Replay, &rp)
+		runHubCase(c, r, o, rp.Case, g)
+
+		return
+	}
+	n := c.Scale(150, 5000)
+	for i := 0; i < n; i++ {
+		cs := genHubCase(c.Rand.Fork(), o, focus)
+		runHubCase(c, r, o, cs, g)
+		if hubNontrivial(cs, focus) {
+			r.Nontrivial(fmt.Sprint(cs))
+		}
+		r.Sample(cs.Ops)
+	}
+}
+
+func hubNontrivial(cs hubCase, focus string) bool {
+	multi, abnormal, subs, apiWith2 := false, false, 0, false
+	priv := false
+	for _, op := range cs.Ops {
+		switch op.Op {
+		case "sub":
+			subs++
+			multi = multi || len(op.Topics) >= 2
+		case "failnext", "stall", "close", "restart":
+			abnormal = true
+		case "disc":
+			subs--
+		case "api.list", "api.get":
+			apiWith2 = apiWith2 || subs >= 2
+		case "pub":
+			priv = priv || len(op.Form["private"]) != 0
+		}
+	}
+	switch focus {
+	case "events":
+		return multi || abnormal
+	case "api":
+		return apiWith2
+	}
+
+	// default focus: a private publish while both a subscriber with claims and one without are connected
+	withClaims, without := map[int]bool{}, map[int]bool{}
+	for _, op := range cs.Ops {
+		switch op.Op {
+		case "sub":
+			if op.Claims != "" {
+				withClaims[op.Label] = true
+			} else {
+				without[op.Label] = true
+			}
+		case "disc":
+			delete(withClaims, op.Label)
+			delete(without, op.Label)
+		case "close", "restart":
+			withClaims, without = map[int]bool{}, map[int]bool{}
+		case "pub":
+			if len(op.Form["private"]) != 0 && len(withClaims) > 0 && len(without) > 0 {
+				return true
+			}
+		}
+	}
+
+	return false
+}
+
 func runHub(c *h.Ctx, r *h.Report) {
-	r.Rule = "operation histories (8-32 ops) through the real Hub.ServeHTTP inside a synctest bubble (quiescence detected with synctest.Wait after every op), both transports, subscriptions on/off, anonymous on/off: publish (1-3 topics, private absent/empty/on, explicit or generated ids, credential in header/query/cookie), subscribe (selectors from a pool of literals, templates covering the topics, '*', non-matching; claims in {none, '*', absent, relative to the pool}; Last-Event-ID via header / query / legacy query in {earliest, unknown, stored id}), client disconnect, failing write, stalled writer, restart, close, subscription API. After every op the full observable state (every stream parsed by the harness's own SSE parser, index, last event id, metrics) is compared with the model. Non-trivial = case in which at least one private update was delivered to someone and withheld from someone else; distinct by content."
+	r.Rule = "operation histories (8-32 ops) through the real Hub.ServeHTTP inside a synctest bubble (quiescence detected with synctest.Wait after every op), both transports, subscriptions on/off, anonymous on/off: publish (1-3 topics, private absent/empty/on, explicit or generated ids, credential in header/query/cookie), subscribe (selectors from a pool of literals, templates covering the topics, '*', non-matching; claims in {none, '*', absent, relative to the pool}; Last-Event-ID via header / query / legacy query in {earliest, unknown, stored id}), client disconnect, failing write, stalled writer, restart, close, subscription API. After every op the full observable state (every stream parsed by the harness's own SSE parser, index, last event id, metrics) is compared with the model. Non-trivial = case containing a private publish while at least one subscriber with a token and one without are connected; distinct by content."
 	o := gen.NewOracle()
 	g := installCountingUUID()
 	if c.Replay != "" {
@@ -247,6 +338,9 @@ func runHub(c *h.Ctx, r *h.Report) {
 	for i := 0; i < n; i++ {
 		cs := genHubCase(c.Rand.Fork(), o, "")
 		runHubCase(c, r, o, cs, g)
+		if hubNontrivial(cs, "") {
+			r.Nontrivial(fmt.Sprint(cs))
+		}
 		r.Sample(cs)
 	}
 }
